@@ -47,6 +47,8 @@ type Spec struct {
 	// replaced, and the replay binary is built with -modfile pointing at that copy (the symbolic
 	// run uses "models" for the same callees). Files in the module cache cannot be overlaid.
 	NativeModulePatch map[string]map[string]string `json:"native_module_patch"`
+	// NativeHooks: see nativehooks.go (native replay build only).
+	NativeHooks *NativeHooks `json:"native_hooks"`
 }
 
 type EntrySpec struct {
@@ -243,6 +245,11 @@ func buildOverlay(spec *Spec, forTest bool) (map[string][]byte, error) {
 				}
 			} else {
 				fmt.Fprintln(os.Stderr, "instrumentation failed (replaying without forced schedules):", err)
+			}
+		}
+		if spec.NativeHooks != nil {
+			if err := nativeHookOverlay(spec.NativeHooks, ov); err != nil {
+				return nil, err
 			}
 		}
 	}
